@@ -263,7 +263,107 @@ pub fn run_pool_isolation(ctx: &Ctx) {
     ctx.shrink_iters.store(1200, std::sync::atomic::Ordering::Relaxed);
 }
 
+// ------------------------------------------------------------------------------------------------
+// the capture loops (analyze_pcap) against the per-packet path: a packet the analyzer refuses must not end the analysis
+// ------------------------------------------------------------------------------------------------
+#[derive(Clone, Debug, serde::Serialize, serde::Deserialize, Hash)]
+pub struct LoopCase {
+    pub trace: TraceCase,
+    /// hostile copies of trace packets: (packet selector, kind: flag byte rewritten / TCP header truncated)
+    pub hostile: Vec<(u16, u8)>,
+}
+
+pub fn loop_frames(c: &LoopCase) -> Vec<Packet> {
+    let mut pk = c.trace.interleaved();
+    let off = if c.trace.link == crate::gen::frames::Link::Ether { 14 } else { 0 };
+    let n0 = pk.len();
+    for (k, (sel, kind)) in c.hostile.iter().enumerate() {
+        if n0 == 0 {
+            break;
+        }
+        let i = (crate::engine::idx(*sel, n0) + k).min(pk.len() - 1);
+        let mut f = pk[i].frame.clone();
+        if f.len() <= off + 20 {
+            continue;
+        }
+        let l4 = if f[off] >> 4 == 4 { off + ((f[off] & 0x0f) as usize * 4).max(20) } else { off + 40 };
+        if f.len() < l4 + 20 {
+            continue;
+        }
+        match kind % 6 {
+            0 => f[l4 + 13] = 0x03, // SYN+FIN
+            1 => f[l4 + 13] = 0x06, // SYN+RST
+            2 => f[l4 + 13] = 0x05, // FIN+RST
+            3 => f[l4 + 13] = 0x00, // no flags
+            4 => f.truncate(l4 + 10), // TCP header cut short
+            _ => f[l4 + 12] = 0x10,  // data offset below the minimum
+        }
+        let copy = Packet { conn: usize::MAX, from_client: pk[i].from_client, frame: f, at: pk[i].at, tsval: None, payload_len: 0 };
+        pk.insert(i + 1, copy);
+    }
+    pk
+}
+
+pub fn check_pcap_loop(c: &LoopCase, st: &mut Stats) -> Result<(), Fail> {
+    let pk = loop_frames(c);
+    if c.trace.link == crate::gen::frames::Link::Null {
+        return Ok(());
+    }
+    drive::set_clock_table(&pk);
+    let frames: Vec<&[u8]> = pk.iter().map(|p| p.frame.as_slice()).collect();
+    let hostile = pk.iter().filter(|p| p.conn == usize::MAX).count();
+    if hostile > 0 && pk.iter().position(|p| p.conn == usize::MAX).map(|i| i + 1 < pk.len()).unwrap_or(false) {
+        st.nontrivial(c);
+    }
+    for k in [Kind::Tcp, Kind::Http, Kind::Tls, Kind::Unified] {
+        // per-packet path: errors are per-packet events, every other packet is analysed
+        let mut a = Analyzer::new(k, 1000);
+        let expected: Vec<String> = pk.iter().flat_map(|p| a.feed(p)).filter(|s| !s.starts_with("ERR")).collect();
+        drive::set_clock(None);
+        let k15 = match k {
+            Kind::Tcp => crate::props::c15::Kind::Tcp,
+            Kind::Http => crate::props::c15::Kind::Http,
+            Kind::Tls => crate::props::c15::Kind::Tls,
+            Kind::Unified => crate::props::c15::Kind::Unified,
+        };
+        let got = match crate::props::c15::run_pcap(k15, &frames, None) {
+            Ok(v) => v,
+            Err(e) => {
+                drive::clear_clock_table();
+                return Err(fail!(format!("{:?}:capture-loop-ended-by-a-packet", k), "analyze_pcap returned `{e}`; the per-packet path yields {} results for the same capture ({hostile} hostile packets)", expected.len()));
+            }
+        };
+        if got != expected {
+            drive::clear_clock_table();
+            let missing = expected.iter().find(|x| !got.contains(x));
+            return Err(fail!(format!("{:?}:capture-loop-differs-from-per-packet-path", k), "capture loop {} results, per-packet path {}\nfirst missing {}", got.len(), expected.len(), truncate(&format!("{:?}", missing), 500)));
+        }
+    }
+    drive::clear_clock_table();
+    Ok(())
+}
+
+pub fn run_pcap_loop(ctx: &Ctx) {
+    use proptest::prelude::*;
+    let n = ctx.tier.pick(6_000, 120_000);
+    ctx.run_prop(
+        "capture-loop-vs-per-packet-path",
+        "traces of 1..6 interleaved connections plus 0..4 hostile copies of their packets (SYN+FIN, SYN+RST, FIN+RST, no flags, TCP header cut short, data offset below 5) written to a pcap file and analysed by analyze_pcap of the TCP, HTTP, TLS and unified analyzers; oracle: the same frames through the per-packet path, where a refused packet is a per-packet event - the capture loop must deliver the same results and must not end early; non-trivial: a hostile packet with traffic behind it",
+        n,
+        || (trace::trace_case(6, true), proptest::collection::vec((any::<u16>(), any::<u8>()), 0..5)).prop_map(|(trace, hostile)| LoopCase { trace, hostile }),
+        |c: &LoopCase, st: &mut Stats| {
+            st.sample(|| json!({"connections": c.trace.conns.len(), "hostile": c.hostile.iter().map(|h| h.1 % 6).collect::<Vec<_>>()}));
+            check_pcap_loop(c, st)
+        },
+    );
+}
+
 pub fn replay(_ctx: &Ctx, _sub: &str, input: &serde_json::Value) -> Result<(), Fail> {
+    if _sub == "capture-loop-vs-per-packet-path" {
+        let c: LoopCase = serde_json::from_value(input["value"].clone()).map_err(|e| fail!("bad-replay", "{e}"))?;
+        let mut st = Stats::new();
+        return check_pcap_loop(&c, &mut st);
+    }
     if _sub == "pool-vs-isolated" {
         let c: crate::props::c10::ParCase = serde_json::from_value(input["value"].clone()).map_err(|e| fail!("bad-replay", "{e}"))?;
         let mut st = Stats::new();
